@@ -39,6 +39,9 @@ impl Deserialize for BootstrapWitnesses {
                     if raw.special()? != cbor_event::Special::Break {
                         return Err(DeserializeFailure::EndingBreakMissing.into());
                     }
+                    if let cbor_event::Len::Len(_) = len {
+                        return Err(DeserializeFailure::BreakInDefiniteLen.into());
+                    }
                     break;
                 }
                 arr.push(BootstrapWitness::deserialize(raw)?);
